@@ -161,7 +161,7 @@ func checkToNumber(c textCase) harness.Outcome {
 var toNumberFacet = harness.Register(&harness.Facet[textCase]{
 	Name: "string-to-number",
 	Rule: "rapid: strings from the StringNumericLiteral grammar: every StrDecimalLiteral alternative (digits of 1..1100 characters with leading zeros, fraction, exponent with e/E, sign, leading zeros, magnitudes 0..25, 285..400 and beyond int32), Infinity, signs, hex literals up to 30 digits, texts derived from doubles (shortest form, exact expansion, the exact midpoint between adjacent doubles and ±1 in a far digit, truncated expansions), 0..3 leading/trailing StrWhiteSpaceChar of every kind; 40% get one edit (insert/delete/replace/duplicate/swap over digits, . e E + - x _ letters of Infinity/NaN, look-alike digits, NUL, ZWSP, NEL) and 10% come from a near-miss pool; Number(s), +s, s-0, s*1, new Number(s).valueOf() against a hand-written recogniser with exact rational value rounded half-even (lib/es5.StringToNumber verified against it on every case); non-trivial = not 1..15 plain digits; distinct by string",
-	Quick: 9000, Thorough: 160000,
+	Quick: 9000, Thorough: 120000,
 	Gen: func(t *rapid.T) textCase {
 		u, kind, mut := genWholeString(t)
 		return textCase{Units: u, Kind: kind, Mut: mut}
@@ -233,7 +233,7 @@ func parseFloatGoClass(u []uint16, want float64) string {
 var parseFloatFacet = harness.Register(&harness.Facet[textCase]{
 	Name: "parsefloat",
 	Rule: "rapid: the strings of string-to-number, 40% followed by junk (px, e, e+, ., .., _1, x, blank+digit, Infinity, -, +1, n, p1, non-ASCII, NUL…); oracle: 15.1.2.3 — skip leading StrWhiteSpaceChar, longest prefix that is a StrDecimalLiteral (incomplete exponent not taken), exact value rounded half-even, NaN if none (lib/es5.ParseFloat verified against it on every case); non-trivial = not 1..15 plain digits; distinct by string",
-	Quick: 8000, Thorough: 140000,
+	Quick: 8000, Thorough: 100000,
 	Gen: func(t *rapid.T) textCase {
 		u, kind, mut := genPrefixString(t)
 		return textCase{Units: u, Kind: kind, Mut: mut}
@@ -456,7 +456,7 @@ func closeRel(a, b, tol float64) bool {
 var parseIntFacet = harness.Register(&harness.Facet[parseIntCase]{
 	Name: "parseint",
 	Rule: "rapid: radix argument {omitted, undefined, each of 2..36, 0, 1, 37, negative, fractional, 2^32+2, 2^32+16, 2^31+8, 2^53, 1e21, ±Infinity, NaN, -0, numeric strings incl. \"0x10\", null, booleans} × string {1..90 digits of the effective radix in both letter cases, special integers around 2^53 / 2^63 / 2^64 / 20-21 digits, leading zeros, 0x/0X prefix, sign, leading white space of every kind, a character outside the radix inserted anywhere, junk suffix; 25% the parseFloat strings}; oracle: 15.1.2.2 with exact big-integer value rounded half-even, -0 for \"-0\"; mandated exactly for radix 2/4/8/16/32 and for radix 10 up to 20 significant digits (beyond: also the value with later digits read as 0), other radixes exactly below 2^53 and within (digits+2)·2^-52 relative above (implementation-dependent approximation allowed); String(result) must be ToString of that double; non-trivial = not (1..15 plain digits with radix omitted or 10); distinct by (string, radix argument)",
-	Quick: 9000, Thorough: 160000,
+	Quick: 9000, Thorough: 120000,
 	Gen:   genParseIntCase,
 	Check: checkParseInt,
 })
